@@ -277,7 +277,7 @@ func init() {
 		Assumptions: []string{"modification times of the extracted copy are not compared (the statement lists files, not times)"},
 		Phases: []*fw.Phase{{
 			Name: "reopen-and-archive-round-trip",
-			N:    fw.Fixed(2000, 20000),
+			N:    fw.Fixed(5000, 30000),
 			Run:  c09Run,
 		}},
 	})
